@@ -75,7 +75,8 @@ class Builder:
             kt, vt = split_top(inner)
             return Struct("HashMap", [Seq([Struct("()", [self.value(kt, k), self.value(vt, v)]) for k, v in t.items()])])
         if wrap == "Box":
-            raise Unsupported("Box in template")
+            # placeholder: the harness allocates the heap cell when the value is put into a state (hlib.Harness.put)
+            return Struct("BoxInline", [self.value(inner, t)])
         name = last_seg(ty)
         if name == "LinkIdx" and not isinstance(t, dict):
             return Struct("LinkIdx", [self.value("u32", t)])
@@ -139,6 +140,8 @@ class Builder:
             from mir import split_top
             kt, vt = split_top(inner)
             return {str(k): self.json(vt, v, model) for k, v in t.items()}
+        if wrap == "Box":
+            return self.json(inner, t, model)
         name = last_seg(ty)
         if isinstance(t, Sym):
             v = model[t.name] if t.name in model else getattr(self, "fixed", {})[t.name]
@@ -197,17 +200,30 @@ class VAcc:
         v = self.v
         for seg in path.split("."):
             v = self._step(v, seg)
+        v = self._unbox(v)
         if isinstance(v, (Struct, Enum, Seq)) and not (isinstance(v, Enum) and v.ty == "Option"):
             return VAcc(self.h, v)
         if isinstance(v, Enum) and v.ty == "Option":
             return None if v.variant == 0 else (VAcc(self.h, v.fields[0]) if isinstance(v.fields[0], (Struct, Seq, Enum)) else v.fields[0])
         return v
 
+    def _unbox(self, v):
+        while isinstance(v, Struct) and v.ty in ("Box", "BoxInline"):
+            if v.ty == "BoxInline":
+                v = v.fields[0]
+            else:
+                p = v.fields[0]
+                while isinstance(p, Struct):
+                    p = p.fields[0]
+                v = self.h.eng.load_ptr(self.h._cur_st, p)
+        return v
+
     def _step(self, v, seg):
+        v = self._unbox(v)
         if isinstance(v, Enum) and v.ty == "Option":
             if v.variant == 0:
                 raise KeyError("None." + seg)
-            v = v.fields[0]
+            v = self._unbox(v.fields[0])
         if isinstance(v, Enum):
             # enum payload: variant name or index
             if seg.isdigit():
@@ -261,11 +277,17 @@ class JAcc:
 
     def _step(self, ty, j, seg):
         wrap, inner = base_type(ty)
+        while wrap == "Box":
+            ty = inner
+            wrap, inner = base_type(ty)
         if wrap == "Option":
             if j is None:
                 raise KeyError("None." + seg)
             ty = inner
             wrap, inner = base_type(ty)
+            while wrap == "Box":
+                ty = inner
+                wrap, inner = base_type(ty)
         if wrap in ("Vec", "Array"):
             return inner, j[int(seg)]
         name = last_seg(ty)
